@@ -39,6 +39,7 @@ type Engine struct {
 	ftBlock    map[string][2]int // named func type key -> [lo,hi] id block of its members
 	ftMembers  map[string][]*ssa.Function
 	tableCache map[string][]string
+	known      []knownFinding
 }
 
 func loadEngine(repo string) (*Engine, error) {
